@@ -87,6 +87,10 @@ FUNCS += [
     dict(id='Append', file='src/pointer.rs', fn='append', impl=BUF_IMPL, lean='PointerBuf.append', params=[('self', 'bufself'), ('other', 'asrefptr')], ret='mutself', rtype='Bytes', imports=['IsRoot']),
     dict(id='Clear', file='src/pointer.rs', fn='clear', impl=BUF_IMPL, lean='PointerBuf.clear', params=[('self', 'bufself')], ret='mutself', rtype='Bytes'),
 ]
+FUNCS += [
+    dict(id='IndexFromStr', file='src/index.rs', fn='from_str', impl=r"impl FromStr for Index", lean='Index.from_str',
+         params=[('s', 'bytes')], ret='res', rtype='Res ParseIndexError Index'),
+]
 SIBLINGS = {'split_front': ('Pointer.split_front', 'opt(tuple:tok,ptrself)'), 'is_root': ('Pointer.is_root', 'bool'), 'count': ('Pointer.count', 'nat'), 'split_at': ('Pointer.split_at', 'opt(tuple:bytes,bytes)'),
             'front': ('Pointer.front', 'opt(bytes)'), 'back': ('Pointer.back', 'opt(bytes)')}
 
@@ -104,6 +108,7 @@ ENUMS = {
 }
 # unit-like error constants
 UNITCTORS = {
+    'ParseIndexError::LeadingZeros': ('ParseIndexError.leadingZeros', 'pie'),
     'InvalidEncoding::Slash': ('EncKind.slash', 'enckind'), 'InvalidEncoding::Tilde': ('EncKind.tilde', 'enckind'),
     'ParseError::NoLeadingSlash': ('ParseError.noLeadingSlash', 'parseerror'),
 }
@@ -285,6 +290,9 @@ class Fn:
         if t == 'byte': return k(str(e[1]), 'nat')
         if t == 'bstr': return k('[' + ', '.join(map(str, e[1])) + ']', 'bytes')
         if t == 'bool': return k('true' if e[1] else 'false', 'bool')
+        if t == 'str':
+            bs = e[1].encode('utf-8').decode('unicode_escape').encode('latin-1') if '\\' in e[1] else e[1].encode('utf-8')
+            return k('[' + ', '.join(str(b) for b in bs) + ']', 'bytes')
         if t == 'char':
             if len(e[1].encode('utf-8')) != 1: raise Unsupported("non-ASCII char literal")
             return k(str(ord(e[1])), 'nat')
@@ -386,6 +394,9 @@ class Fn:
             if ps in ('Vec::with_capacity', 'String::with_capacity') and len(args) == 1:
                 return k('([] : Bytes)', 'bytes')
             if ps in ('Vec::new', 'String::new') and not args: return k('([] : Bytes)', 'bytes')
+            if ps == 'String::from' and len(args) == 1: return self.E(args[0], env, ctx, lambda a, ta: k(a, 'bytes') if ta in BYTESLIKE else self.bad("String::from(" + ta + ")"))
+            if ps == 'ParseIndexError::InvalidCharacter' and len(args) == 1:
+                return self.E(args[0], env, ctx, lambda a, ta: k(a, 'pie') if ta == 'pie' else self.bad("InvalidCharacter(" + ta + ")"))
             if ps in ('PointerBuf', 'Self') and len(args) == 1 and self.spec['lean'].startswith('PointerBuf.'):
                 return self.E(args[0], env, ctx, lambda a, ta: k(a, 'bytes') if ta in BYTESLIKE else self.bad("PointerBuf(" + ta + ")"))
             if ps in ('String::from_utf8_unchecked', 'core::str::from_utf8_unchecked', 'str::from_utf8_unchecked',
@@ -435,6 +446,9 @@ class Fn:
                     if i == len(want): return k(f"(ResolveErr.{ctor} {' '.join(acc)})", 'resolveerr')
                     return self.E(fields[want[i]], env, ctx, lambda a, ta: go(i + 1, acc + [a]))
                 return go(0, [])
+            if ps == 'InvalidCharacterError' and set(fields) == {'source', 'offset'}:
+                return self.E(fields['source'], env, ctx, lambda sv, _: self.E(fields['offset'], env, ctx,
+                              lambda ov, __: k(f"(ParseIndexError.invalidCharacter {sv} {ov})", 'pie')))
             raise Unsupported("struct literal " + ps)
         if t == 'mcall':
             return self.mcall(e, env, ctx, k)
@@ -522,6 +536,14 @@ class Fn:
             if name == 'checked_add' and len(args) == 1 and tr == 'nat':
                 return self.E(args[0], env, ctx, lambda a, ta: k(f"(if {r} + {a} ≤ usizeMax then some ({r} + {a}) else none)", 'optnat'))
             if name == 'into_inner' and not args and tr.startswith('tuple:'): return k(r, tr)
+            if tr in BYTESLIKE and name == 'chars' and not args and self.spec['id'] == 'IndexFromStr': return k(r, 'bytes')
+            if tr == 'nat' and name == 'is_ascii_digit' and not args: return k(f"(isDigit {r})", 'bool')
+            if tr in BYTESLIKE and name == 'parse' and not args and self.spec['id'] == 'IndexFromStr':
+                return k(f"(parseUsize {r})", mk_res('nat', 'pie'))      # `s.parse::<usize>()` with the error already as ParseIndexError
+            if is_res(tr) and name == 'map' and len(args) == 1 and args[0] == ('path', ['Index', 'Num']):
+                tt, te = res_parts(tr); a = self.fresh('a'); ev = self.fresh('e'); m = self.fresh('m')
+                return k(paren(f"match {r} with\n| .ok {a} => Res.ok (Index.num {a})\n| .err {ev} => Res.err {ev}\n| .panic {m} => Res.panic {m}"), mk_res('index', te))
+            if is_res(tr) and name == 'map_err' and len(args) == 1 and args[0] in (('path', ['ParseIndexError', 'from']), ('path', ['ParseIndexError', 'from_'])): return k(r, tr)
             if tr == 'intotoken' and name == 'into' and not args: return k(r, 'tok')
             if tr == 'asrefptr' and name == 'as_ref' and not args: return k(r, 'ptrself')
             if tr in BYTESLIKE and name in ('to_string', 'to_owned', 'clone') and not args: return k(r, 'bytes')
@@ -605,6 +627,10 @@ class Fn:
                     pat, env2 = self.closure_head(args[1], inner, env)
                     body, tb = self.term(args[1][2], env2)
                     tb = 'bytes' if tb in BYTESLIKE else tb; td = 'bytes' if td in BYTESLIKE else td
+                    if is_res(tb) and is_res(td):      # `Ok(..)` / `Err(..)` literals leave the other side open
+                        (t1, e1), (t2, e2) = res_parts(td), res_parts(tb)
+                        tu = t1 if t2 == '?' else t2; eu = e1 if e2 == '?' else e2
+                        if (t1 in ('?', tu)) and (t2 in ('?', tu)) and (e1 in ('?', eu)) and (e2 in ('?', eu)): td = tb = mk_res(tu, eu)
                     if tb != td: raise Unsupported(f"map_or branches of different types ({td} / {tb})")
                     return k(paren(f"match {r} with\n| none => {d}\n| some {pat} => {body}"), tb)
                 if name in ('is_some', 'is_none') and not args:
